@@ -4,7 +4,8 @@ open Finset BigOperators Matrix
 
 set_option linter.unusedSectionVars false
 
-namespace GT
+namespace GT.GS
+open GT.Iso
 
 variable {K : Type*} [Field K] {n : ℕ}
 
@@ -202,4 +203,4 @@ theorem findIsometry_isIso' {r : K → K} (hr : IsSqrt r) (x : Fin (n + 1) → K
     rw [if_neg this, if_neg hik]
 
 end ordered
-end GT
+end GT.GS
